@@ -170,7 +170,12 @@ func (s *Service) BeaconBlockRoot(ctx context.Context,
 				Msg("Hard timeout reached")
 		}
 	}
+	// The slot lookups below are part of this call: they may have to go to a beacon node,
+	// and are bounded by the same timeout as the requests were.
+	hardDeadline, _ := hardCtx.Deadline()
 	cancel()
+	lookupCtx, lookupCancel := context.WithDeadline(ctx, hardDeadline)
+	defer lookupCancel()
 	log.Trace().
 		Dur("elapsed", time.Since(started)).
 		Int("responded", responded).
@@ -182,7 +187,7 @@ func (s *Service) BeaconBlockRoot(ctx context.Context,
 	bestRootCount := 0
 	bestRootSlot := phase0.Slot(0)
 	for root, count := range beaconBlockRootCounts {
-		slot, err := s.blockRootToSlotCache.BlockRootToSlot(ctx, root)
+		slot, err := s.blockRootToSlotCache.BlockRootToSlot(lookupCtx, root)
 		if err != nil {
 			log.Debug().Stringer("root", root).Err(err).Msg("Failed to obtain parent slot; assuming 0")
 		}
